@@ -354,6 +354,27 @@ def install_conn_proxy():
     _proxy_installed = True
 
 
+CONNECTIONS = []     # every DuckDB connection handed out by duckdb.connect since the last census reset (see install_connect_census)
+_census_installed = False
+
+
+def install_connect_census():
+    """Wrap duckdb.connect (the module attribute the engine calls) so that every connection it opens is recorded."""
+    global _census_installed
+    if _census_installed:
+        return
+    import duckdb
+    orig = duckdb.connect
+
+    def connect(*a, **k):
+        conn = orig(*a, **k)
+        CONNECTIONS.append(conn)
+        return conn
+
+    duckdb.connect = connect
+    _census_installed = True
+
+
 def conn_is_closed(conn):
     try:
         conn.execute("select 1")
